@@ -209,7 +209,7 @@ Lemma fold_min_le (xs : list Q) : forall acc,
 Proof.
   induction xs as [|x xs IH]; intros acc; cbn [map fold_left].
   - split; [lra|]. split; [intros ? []|left; reflexivity].
-  - specialize (IH (Qmin acc x)). destruct (fold_left _ (map VQ xs) (VQ (Qmin acc x))) as [m| | | | | |]; try contradiction.
+  - specialize (IH (Qmin acc x)). destruct (fold_left _ (map VQ xs) (VQ (Qmin acc x))) as [m| | | | | | |]; try contradiction.
     destruct IH as [H1 [H2 H3]]. pose proof (Q.le_min_l acc x). pose proof (Q.le_min_r acc x).
     split; [lra|]. split.
     + intros y [<-|Hy]; [lra|auto].
@@ -224,7 +224,7 @@ Lemma fold_max_ge (xs : list Q) : forall acc,
 Proof.
   induction xs as [|x xs IH]; intros acc; cbn [map fold_left].
   - split; [lra|]. split; [intros ? []|left; reflexivity].
-  - specialize (IH (Qmax acc x)). destruct (fold_left _ (map VQ xs) (VQ (Qmax acc x))) as [m| | | | | |]; try contradiction.
+  - specialize (IH (Qmax acc x)). destruct (fold_left _ (map VQ xs) (VQ (Qmax acc x))) as [m| | | | | | |]; try contradiction.
     destruct IH as [H1 [H2 H3]]. pose proof (Q.le_max_l acc x). pose proof (Q.le_max_r acc x).
     split; [lra|]. split.
     + intros y [<-|Hy]; [lra|auto].
@@ -243,10 +243,10 @@ Proof.
   unfold py_bbox, vq_mat, vq_list, np_min_axis1, np_max_axis1. cbn [map row_fold vidx nth].
   pose proof (fold_min_le xs x0) as Hl. pose proof (fold_max_ge xs x0) as Hr.
   pose proof (fold_min_le ys y0) as Hb. pose proof (fold_max_ge ys y0) as Ht.
-  destruct (fold_left _ (map VQ xs) (VQ x0)) as [l| | | | | |] eqn:El in Hl; try contradiction.
-  destruct (fold_left _ (map VQ xs) (VQ x0)) as [r| | | | | |] eqn:Er in Hr; try contradiction.
-  destruct (fold_left _ (map VQ ys) (VQ y0)) as [b| | | | | |] eqn:Eb in Hb; try contradiction.
-  destruct (fold_left _ (map VQ ys) (VQ y0)) as [t| | | | | |] eqn:Et in Ht; try contradiction.
+  destruct (fold_left _ (map VQ xs) (VQ x0)) as [l| | | | | | |] eqn:El in Hl; try contradiction.
+  destruct (fold_left _ (map VQ xs) (VQ x0)) as [r| | | | | | |] eqn:Er in Hr; try contradiction.
+  destruct (fold_left _ (map VQ ys) (VQ y0)) as [b| | | | | | |] eqn:Eb in Hb; try contradiction.
+  destruct (fold_left _ (map VQ ys) (VQ y0)) as [t| | | | | | |] eqn:Et in Ht; try contradiction.
   rewrite El, Er, Eb, Et. exists l, r, b, t. split; [reflexivity|].
   destruct Hl as [Hl1 [Hl2 Hl3]], Hr as [Hr1 [Hr2 Hr3]], Hb as [Hb1 [Hb2 Hb3]], Ht as [Ht1 [Ht2 Ht3]].
   repeat split.
